@@ -1,5 +1,5 @@
 (* C01 — the memory bound is never exceeded.  Statements only; proofs are in A/InvA.v. *)
-Require Import LruV.A.InvA.
+Require Import LruV.A.InvA LruV.T.TableA.
 
 (* Every state reachable from any constructor configuration (any limit below 2^64, any initial
    capacity) by any sequence of well-formed operations, under every resolution of the table
@@ -20,6 +20,18 @@ Theorem C01_arith : forall E VS, 0 < E -> VS <= E -> forall s p o, Reach E VS s 
 Proof.
   intros E VS HE HV s p o HR Hwf Hnone.
   destruct (step_total_inv E VS HE HV s p o (reach_inv E VS HE HV s HR) Hwf) as [(r & Hs & _)|(_ & H)]; [congruence|exact H].
+Qed.
+
+(* ... and the table does not refuse for any realistic size: with hashbrown's own invariant (the table is never
+   asked to hold more than its capacity) and tables below 2^48 entries of at most 255 inline bytes, EVERY step
+   from EVERY reachable state is defined: no under/overflow anywhere, no spinning eviction loop *)
+Theorem C01_total : forall E VS, 0 < E < 256 -> VS <= E -> forall s p o, Reach E VS s -> wf_op E s p ->
+  (forall t n, t_insert E t n o = None -> n <= capacity t /\ capacity t < 2 ^ 48) ->
+  stepA E VS fixed s p o <> None.
+Proof.
+  intros E VS HE HV s p o HR Hwf Htab Hnone.
+  destruct (C01_arith E VS (proj1 HE) HV s p o HR Hwf Hnone) as (_ & t & n & Ht).
+  destruct (Htab t n Ht) as [H1 H2]. exact (t_insert_total E HE t n o H1 H2 Ht).
 Qed.
 
 (* the Boolean monitor evaluated on the implementation's observations is implied by reachability *)
@@ -57,6 +69,7 @@ Proof. eexists. split; [vm_compute; reflexivity|]. vm_compute. discriminate. Qed
 
 Print Assumptions C01_bound.
 Print Assumptions C01_arith.
+Print Assumptions C01_total.
 Print Assumptions C01_monitor_sound.
 Print Assumptions C01_pinned_mutate_refuted.
 Check C01_bound : forall E VS, 0 < E -> VS <= E -> forall s, Reach E VS s ->
